@@ -119,37 +119,43 @@ Scale256(n, m) == (n \div m) * 256 + ((n % m) * 256) \div m
 
 (* gradient parameter of layer l (with l.gr the resolved gradient, l.shape the placed shape) at p: *)
 (* <<defined, value>>: value = floor(256 t) (linear) or floor(256 t^2) (radial)                   *)
+CeilDiv(a, b) == (a + b - 1) \div b
+Max3(a, b, c) == IF a >= b /\ a >= c THEN a ELSE IF b >= c THEN b ELSE c
+
 GradT(l, p) ==
   LET gr == l.gr
-      bx == BBox(l.shape.tag, l.shape.g)
-      G0 == IF gr.bb THEN Mul(l.shape.m, <<bx[3], 0, 0, bx[4], bx[1], bx[2], 1>>) ELSE l.shape.m
-      G  == Mul(G0, gr.gt)
+      G  == GradM(l)
   IN IF Det(G) = 0 THEN <<FALSE, 0>>
      ELSE LET q0 == PreImage(G, p[1], p[2], U)
-              f  == q0[3] \div 256 + 1
-              q  == <<q0[1] \div f, q0[2] \div f, q0[3] \div f>>      \* reduced precision, den <= 256
               \* common denominator of the gradient coordinates
               DD == Lcm(Lcm(gr.p1[1][2], gr.p1[2][2]), Lcm(gr.p2[1][2], gr.p2[2][2]))
               X1 == gr.p1[1][1] * (DD \div gr.p1[1][2])   Y1 == gr.p1[2][1] * (DD \div gr.p1[2][2])
               X2 == gr.p2[1][1] * (DD \div gr.p2[1][2])   Y2 == gr.p2[2][1] * (DD \div gr.p2[2][2])
-              ux == q[1] * DD - X1 * q[3]   uy == q[2] * DD - Y1 * q[3]       \* (q - p1) * den * D
-          IN IF q[3] = 0 \/ DD > 400 \/ Abs(q[1]) > 100000 \/ Abs(q[2]) > 100000 THEN <<FALSE, 0>>
+              vx == X2 - X1  vy == Y2 - Y1
+          IN IF DD > 400 \/ Abs(X1) > 4000 \/ Abs(Y1) > 4000 \/ Abs(X2) > 4000 \/ Abs(Y2) > 4000 THEN <<FALSE, 0>>
              ELSE IF gr.kind = "linear"
-             THEN LET vx == X2 - X1  vy == Y2 - Y1
-                      vv == vx * vx + vy * vy
+             THEN LET vv == vx * vx + vy * vy
+                      \* reduce the pre-image only as far as 32-bit arithmetic demands
+                      f  == Max3(CeilDiv(q0[3], 8000000 \div (vv + 1)),
+                                 CeilDiv(Abs(q0[1]) + Abs(q0[2]), 1000000 \div DD), 1)
+                      q  == <<q0[1] \div f, q0[2] \div f, q0[3] \div f>>
+                      ux == q[1] * DD - X1 * q[3]   uy == q[2] * DD - Y1 * q[3]       \* (q - p1) * den * DD
                       NN == ux * vx + uy * vy
                       MM == q[3] * vv
-                  IN IF vv = 0 \/ vv > 30000 \/ Abs(ux) > 40000 \/ Abs(uy) > 40000 \/ Abs(vx) > 400 \/ Abs(vy) > 400
-                     THEN <<FALSE, 0>>
-                     ELSE IF MM > 8000000 THEN <<FALSE, 0>>
+                  IN IF vv = 0 \/ vv > 30000 \/ q[3] = 0 \/ q0[3] > 100000000 THEN <<FALSE, 0>>
+                     ELSE IF Abs(ux) > 2000000 \/ Abs(uy) > 2000000 \/ MM > 8000000 THEN <<FALSE, 0>>
                      ELSE <<TRUE, IF NN >= 0 THEN Scale256(NN, MM) ELSE 0 - Scale256(0 - NN, MM) - 1>>
              ELSE IF gr.kind = "radial"
-             THEN \* t^2 = (ux^2 + uy^2) / (den^2 * R^2) with R = X2 (r * D)
-                  LET R == X2
-                      g2 == Gcd(Gcd(ux, uy), q[3] * R)
-                      a == ux \div (IF g2 = 0 THEN 1 ELSE g2)  b == uy \div (IF g2 = 0 THEN 1 ELSE g2)
-                      m == (q[3] * R) \div (IF g2 = 0 THEN 1 ELSE g2)
-                  IN IF R = 0 \/ m = 0 \/ Abs(a) > 30000 \/ Abs(b) > 30000 \/ Abs(m) > 2800 THEN <<FALSE, 0>>
+             THEN \* t^2 = (ux^2 + uy^2) / (den * R)^2 with R = X2 (r * DD)
+                  LET f0 == Max3(CeilDiv(Abs(q0[1]) + Abs(q0[2]) + q0[3], 200000 \div DD), 1, 1)
+                      q  == <<q0[1] \div f0, q0[2] \div f0, q0[3] \div f0>>
+                      ux == q[1] * DD - X1 * q[3]   uy == q[2] * DD - Y1 * q[3]
+                      mR == q[3] * X2
+                      \* bring the denominator to about 2800 (its square must stay below 8 * 10^6)
+                      g  == CeilDiv(Abs(mR), 2800)
+                      a  == ux \div g   b == uy \div g   m == mR \div g
+                  IN IF X2 <= 0 \/ q[3] = 0 \/ g = 0 \/ m = 0 THEN <<FALSE, 0>>
+                     ELSE IF Abs(a) > 30000 \/ Abs(b) > 30000 THEN <<FALSE, 0>>
                      ELSE <<TRUE, Scale256(a * a + b * b, m * m)>>
              ELSE <<FALSE, 0>>
 =============================================================================
